@@ -1,7 +1,7 @@
 """C13 / C06 — EventTimeWindowManager::{alloc_windows, process} (src/operator/window/descr/event_time.rs), Verus,
 unbounded in the number of open windows.  The three iterator-adapter chains of `process` are desugared by the declared
 V-ITER templates (predicates and bodies are copied verbatim)."""
-import os, sys
+import os, re, sys
 sys.path.insert(0, os.path.dirname(os.path.dirname(__file__)))
 import std_specs as S
 
@@ -252,8 +252,8 @@ def build(x):
     al = x.method(F, 'EventTimeWindowManager', 'alloc_windows')
     al.desugar_assert()
     al.annotate_closure('self.last_watermark.map(', 'w: Timestamp', 'ok: bool', 'ok == (ts >= w)', obl='alloc.not_late_check')
-    al.annotate_closure('self.ws.back().map(', 'b: &Slot<A>', 'more: bool', 'more == (b.start < ts)', nth=1, obl='alloc.allocates_until_slot_start_reaches_ts')
-    al.annotate_closure('self.ws.back().map(', 'b: &Slot<A>', 'ns: Timestamp', 'ns == b.start + self.slide', nth=2, requires='-B <= b.start <= B + SLACK && 1 <= self.slide <= 0x100_0000_0000', obl='alloc.next_start_is_previous_plus_slide')
+    al.annotate_closure(re.compile(r'while self\.ws\.back\(\)\.map\('), 'b: &Slot<A>', 'more: bool', 'more == (b.start < ts)', obl='alloc.allocates_until_slot_start_reaches_ts')
+    al.annotate_closure(re.compile(r'let (?:mut )?\w+ = self\.ws\.back\(\)\.map\('), 'b: &Slot<A>', 'ns: Timestamp', 'ns == b.start + self.slide', requires='-B <= b.start <= B + SLACK && 1 <= self.slide <= 0x100_0000_0000', obl='alloc.next_start_is_previous_plus_slide')
     al.add_spec(ALLOC_SPEC)
     al.add_loop_spec(1, ALLOC_INV)
     al.insert_after_stmt('let mut next_start', HINT_DIV)
